@@ -21,6 +21,10 @@ runs against the real functions; the reader is the independent RFC 7932 reader o
  6. `final_bits_roundtrip` — ISLAST/ISLASTEMPTY + padding.
  7. quality 0: `sampled_literal_histogram_positive` (the `1 +` gives every byte value a count, hence a code —
     what merged blocks rely on) and its contrast `exact_literal_histogram_zero`.
+ 8. `create_commands_replays` — the quality-1 match finder `CreateCommands` (the real hash-table algorithm):
+    for every input, block, table state holding earlier positions, window ≥ 2^18 − 16: the buffers it returns
+    are accepted by `replayQ1` and reproduce the block ((b) below is DISCHARGED);
+    `compressed_block_roundtrip_cc_partial` = 5 without the replay hypothesis.
 
 FULL STATEMENT that is NOT reached (kept here as the target):
   for every input fragment (any size ≥ 0), is_last, table size 2^8..2^17, ShouldCompress answers, and start
@@ -30,14 +34,16 @@ FULL STATEMENT that is NOT reached (kept here as the target):
   (a) `CmdCodeOK` — `BuildAndStoreCommandPrefixCode`: the bit patterns computed on the PERMUTED 64-entry depth
       array equal the canonical code of the 704-entry array that is stored (an order-embedding argument over
       C17 `canonical`; it is FALSE if command code 0 or 40 is used, see `stepQ1`);
-  (b) `replayQ1` holds of what `createCommands` produces (every copy was verified by `IsMatch` /
-      `FindMatchLengthWithLimit`) — evaluated per run on the real and the model's buffers (`rp=`, `q1replay`);
+  (b) [PROVED since session 4: `create_commands_replays`] `replayQ1` holds of what `createCommands` produces;
+      still missing there: that `createCommands` RETURNS (no slice panic, fuel suffices) under the callers'
+      buffer sizes — partial correctness only;
   (c) the induction over the blocks of `twoPassImpl` (composition by `readMetaBlocks_step`, mechanical);
   (d) the storage bound: the bits written fit in 2·n + 503 bytes (needs a cost bound for the length-limited
       prefix codes); the theorems take the room as a hypothesis, the search stage runs the real code on a
       storage of exactly 2·n + 503 bytes.
 -/
 import BV.Lemmas.FragmentQ0
+import BV.Lemmas.FragmentCC3
 import BV.Props.C01MetaBlock
 
 namespace BV.Props.C01Fragment
@@ -205,5 +211,74 @@ theorem exact_literal_histogram_zero (input : List Nat) (h : input.length < 3276
 /-- non-vacuity of the second: "ab", byte value 99 -/
 example : (literalHistogram [97, 98]).1.getD 99 0 = 0 ∧ (literalHistogram [97, 98]).1.getD 97 0 = 3 := by
   decide +kernel
+
+/-! ## 8. `CreateCommands` (quality 1): the match finder's output replays — hypothesis (b) of the module header
+is a THEOREM -/
+
+/-- `create_commands_replays`.  The two-pass `CreateCommands` (model `createCommands` = the real hash-table match
+finder, tied bit-exactly by the correspondence lines `cc` / `q1`): for EVERY fragment input `inp` of bytes, every
+block `[ii, ii + mlen)` of it (`1 ≤ mlen < 2^24`; the real blocks are ≤ 2^17), every `input_size`, every table
+size / `min_match ∈ {4, 6}`, every buffer capacity and EVERY hash-table state whose entries are earlier positions
+(`TB table (ii + 1)`: what `GetHashTable`'s zero fill and the previous blocks of the same fragment leave), every
+RFC window ≥ 2^18 − 16 (the writers' `MAX_DISTANCE`; `lgwin ≥ 18` at quality 0/1), every reader history `hist`
+and distance ring: IF the call returns (no slice panic), the command / literal buffers it returns are accepted by
+the RFC 7932 execution `replayQ1` from "hist ++ input before the block" and reproduce exactly the block; no code
+0 / 40 is used (replayQ1 rejects them); and the table again holds earlier positions, so the statement chains over
+the blocks of one fragment.  Why it holds: every copy is confirmed by `IsMatch` (4 or 6 bytes compared through
+two 32-bit loads of BYTES) and extended by `FindMatchLengthWithLimit`; candidates come from the table (earlier
+positions, so distance ≥ 1 and within the produced output) or from `ip − last_distance` (`candidate < ip` is
+tested); distances > 2^18 − 16 are skipped; `skip` cannot wrap within the fuel, so the scan always advances. -/
+theorem create_commands_replays (wo : WordOracle) (window : Nat) (inp : Array Nat) (hist : List Nat)
+    (ring0 : List Int) (ii mlen inputSize tableBits minMatch capLit capCmd : Nat) (table t' : Array Int)
+    (lits cmds : List Nat) (hwin : 262128 ≤ window) (hb : ∀ i, inp.getD i 0 < 256)
+    (hmm : minMatch = 4 ∨ minMatch = 6) (hsz : ii + mlen ≤ inp.size) (h31 : inp.size < 2147483648)
+    (h1 : 1 ≤ mlen) (hml : mlen < 16777216) (htb : TB table (ii + 1))
+    (h : createCommands ii mlen inputSize inp table tableBits minMatch capLit capCmd = .ok (t', lits, cmds)) :
+    ∃ ring, replayQ1 wo window mlen cmds lits 0 ⟨hist ++ inp.toList.take ii, ring0⟩
+        = some ⟨hist ++ inp.toList.take (ii + mlen), ring⟩ ∧ TB t' (ii + mlen + 1) :=
+  createCommands_replays wo window inp hist ring0 ii mlen inputSize tableBits minMatch capLit capCmd table t' lits cmds
+    hwin hb hmm hsz h31 h1 hml htb h
+
+/-- non-vacuity: 40 bytes "abcdeabcde…", zeroed table of 256 entries: the call returns insert 5, distance 5,
+copy 35 (= 2 + 33 at the last distance), and the zeroed table meets `TB` -/
+example : (createCommands 0 40 40 ((List.range 40).map fun i => 97 + i % 5).toArray (Array.replicate 256 0) 8 4 40 40).bind
+      (fun r => .ok (r.2.1, r.2.2)) = .ok ([97, 98, 99, 100, 101], [5, 82, 805]) ∧
+    TB (Array.replicate 256 0) (0 + 1) := by
+  refine ⟨by decide +kernel, ?_⟩
+  intro i hi
+  rw [Array.size_replicate] at hi
+  rw [Array.getD_eq_getD_getElem?, Array.getElem?_replicate, if_pos hi]
+  exact ⟨by decide, by decide⟩
+
+/-- `compressed_block_roundtrip_cc_partial`: `CreateCommands` + one compressed block of the two-pass writer,
+WITHOUT the replay hypothesis: the RFC reader decodes the block's bits to history ++ block.
+PARTIAL: `CmdCodeOK cmds` ((a) of the module header) and the room `hr` ((d)) remain hypotheses. -/
+theorem compressed_block_roundtrip_cc_partial (wo : WordOracle) (window : Nat) (inp : Array Nat) (hist : List Nat)
+    (ring0 : List Int) (ii mlen inputSize tableBits minMatch capLit capCmd : Nat) (table t' : Array Int)
+    (lits cmds : List Nat) (s : Sto) (hwin : 262128 ≤ window) (hb : ∀ i, inp.getD i 0 < 256)
+    (hmm : minMatch = 4 ∨ minMatch = 6) (hsz : ii + mlen ≤ inp.size) (h31 : inp.size < 2147483648)
+    (h1 : 1 ≤ mlen) (hml : mlen < 16777216) (htb : TB table (ii + 1))
+    (h : createCommands ii mlen inputSize inp table tableBits minMatch capLit capCmd = .ok (t', lits, cmds))
+    (hl256 : ∀ b ∈ lits, b < 256) (hll : lits.length ≤ 2 ^ 24)
+    (hcc : CmdCodeOK cmds) (hg : Good s)
+    (hr : ∀ litD litB cb1 ch cmdD cmdB cb23,
+      buildAndStoreHuffmanTreeFast (histo 256 lits) lits.length 8 (List.replicate 256 0) (List.replicate 256 0) []
+        = .ok (litD, litB, cb1) →
+      cmdHistoQ1 cmds = .ok ch →
+      buildAndStoreCommandPrefixCodeQ1 ch (List.replicate 128 0) (List.replicate 128 0) [] = .ok (cmdD, cmdB, cb23) →
+      (s.ix + 41 + cb1.length + cb23.length + 81 * cmds.length + 57 * lits.length) / 8 + 8 ≤ s.bytes.size) :
+    ∃ s' bits ring, storeBlock ((inp.extract ii (ii + mlen)).toList) lits cmds true s = .ok s' ∧
+      s'.bits = s.bits ++ bits ∧ Good s' ∧ TB t' (ii + mlen + 1) ∧
+      ∀ rest, readMetaBlockFull wo window false s.ix ⟨hist ++ inp.toList.take ii, ring0⟩ (bits ++ rest)
+        = some (⟨hist ++ inp.toList.take (ii + mlen), ring⟩, false, s.ix + bits.length, rest) := by
+  obtain ⟨ring, hrep, htb'⟩ := create_commands_replays wo window inp hist ring0 ii mlen inputSize tableBits minMatch
+    capLit capCmd table t' lits cmds hwin hb hmm hsz h31 h1 hml htb h
+  have hlen : ((inp.extract ii (ii + mlen)).toList).length = mlen := by
+    rw [extract_toList, List.length_take, List.length_drop, Array.length_toList]; omega
+  obtain ⟨s', bits, e, w, g, r⟩ := compressed_block_roundtrip_partial wo window ((inp.extract ii (ii + mlen)).toList)
+    lits cmds ⟨hist ++ inp.toList.take ii, ring0⟩ ⟨hist ++ inp.toList.take (ii + mlen), ring⟩ s
+    (by rw [hlen]; exact h1) (by rw [hlen]; have : (2 : Nat) ^ 24 = 16777216 := by decide
+                                 omega) hl256 hll (by rw [hlen]; exact hrep) hcc hg hr
+  exact ⟨s', bits, ring, e, w, g, htb', r⟩
 
 end BV.Props.C01Fragment
